@@ -460,3 +460,43 @@ def rule_runtime(prog):
                      "kanata does not behave like a fresh instance (e.g. the wheel keeps turning, the letter after the reload is shifted)"
                      % (name, why))
     return res
+
+
+def rule_index(prog):
+    """R-RELOAD-INDEX (C15): the index of the configuration file to reload is not computed with wrapping arithmetic.
+
+    lrld-next / lrld-prev move `cur_cfg_idx` round the list of configuration files. `cur.wrapping_sub(1) % len` looks
+    like the mirror image of `(cur + 1) % len`, but from index 0 it is `usize::MAX % len`, which is `len - 1` only when
+    len is a power of two: with 3 files lrld-prev from the first file reloads the first file again. Any wrapping /
+    overflowing operation on the way into the stored index has this problem (the modulus is a run-time length)."""
+    from kq.analysis import backward_slice
+    from kq.core import proj_fields, rvalue_operands
+    res = RuleResult("R-RELOAD-INDEX", "stores to Kanata.cur_cfg_idx are not derived from wrapping arithmetic", floor=4)
+    n = 0
+    for f in prog.fns.values():
+        if f.crate != "kanata_state_machine" or f.derive:
+            continue
+        k = 0
+        for bi in f.reachable():
+            for si, st in enumerate(f.stmts(bi)):
+                if st["k"] != "assign" or not proj(st["p"]):
+                    continue
+                pf = proj_fields(st["p"])
+                if not pf or pf[-1][2] != "cur_cfg_idx":
+                    continue
+                callees = set()
+                for op in rvalue_operands(st["rv"]):
+                    callees |= backward_slice(f, op, maxdepth=20)[1]
+                bad = sorted(c.split("::")[-1] for c in callees if any(w in c.split("::")[-1] for w in ("wrapping_", "overflowing_", "unchecked_")))
+                key = "%s/store%s" % (f.norm.split("::")[-1], "#%d" % k if k else "")
+                k += 1
+                n += 1
+                res.fn(f)
+                res.inst(key, where="%s:%s" % (f.file, f.line_of(bi, si)), ok=not bad)
+                res.oblige(not bad)
+                if bad:
+                    res.viol(key, "%s:%s" % (f.file, f.line_of(bi, si)),
+                             "the index stored in cur_cfg_idx is computed with %s: after wrapping below zero the value is usize::MAX, and "
+                             "reducing that modulo the number of configuration files gives the last file only when that number is a power "
+                             "of two - with 3, 5, 6, 7 files lrld-prev from the first file reloads the wrong file" % ", ".join(bad))
+    return res
